@@ -58,6 +58,10 @@ def main():
         if no_tests:
             r = sh(f"cd {wt} && {env} cargo build --offline --bin redo")
             res["build_ok"] = r.returncode == 0
+            # keep the last full test-suite result, with the HEAD it was obtained on
+            prev = meta.get("confirmed", {})
+            if "test_suite" in prev:
+                res["test_suite"] = dict(prev["test_suite"], at_repo_head=prev["test_suite"].get("at_repo_head", prev.get("repo_head")))
         else:
             r = sh(f"cd {wt} && {env} cargo test --workspace --no-fail-fast --offline")
             passed = sum(int(x) for x in re.findall(r"^test result: .*? (\d+) passed", r.stdout, re.M))
